@@ -314,6 +314,12 @@ def _worker_init(prop_id):
     signal.signal(signal.SIGALRM, _alarm)
 
 
+def _raised_in_library(e):
+    """Did the exception originate in the library under test (innermost frame under REPO/src)?"""
+    tb = traceback.extract_tb(e.__traceback__)
+    return bool(tb) and os.path.realpath(tb[-1].filename).startswith(os.path.realpath(os.path.join(REPO, "src")) + os.sep)
+
+
 def _worker_run(case):
     global _SEQ
     prop = _PROP
@@ -331,8 +337,15 @@ def _worker_run(case):
     except CaseTimeout:
         out["obs"] = {"_timeout": True}
         out["oracle"].append({"clause": "terminates", "detail": "run_impl exceeded %ds twice (second try %ds)" % (prop.case_timeout, prop.case_timeout * 6)})
-    except Exception:
-        out["err"] = "run_impl crashed: " + traceback.format_exc()[-1500:]
+    except Exception as e:
+        if _raised_in_library(e):
+            # the runners catch every exception the library documents; one that escapes from library code
+            # is an observation about the library (a failing input), not a crash of the harness
+            out["obs"] = {"_raised": type(e).__name__}
+            out["oracle"].append({"clause": "unexpected-exception", "exception": type(e).__name__,
+                                  "detail": traceback.format_exc()[-1200:]})
+        else:
+            out["err"] = "run_impl crashed: " + traceback.format_exc()[-1500:]
     finally:
         signal.alarm(0)
     signal.alarm(prop.case_timeout)
@@ -344,8 +357,13 @@ def _worker_run(case):
             out["oracle"].extend(prop.oracle(case) or [])
     except CaseTimeout:
         out["oracle"].append({"clause": "terminates", "detail": "oracle exceeded %ds twice" % prop.case_timeout})
-    except Exception:
-        out["err"] = (out["err"] or "") + "oracle crashed: " + traceback.format_exc()[-1500:]
+    except Exception as e:
+        if _raised_in_library(e):
+            if not any(f.get("clause") == "unexpected-exception" for f in out["oracle"]):
+                out["oracle"].append({"clause": "unexpected-exception", "exception": type(e).__name__,
+                                      "detail": traceback.format_exc()[-1200:]})
+        else:
+            out["err"] = (out["err"] or "") + "oracle crashed: " + traceback.format_exc()[-1500:]
     finally:
         signal.alarm(0)
     try:
@@ -548,7 +566,7 @@ def run_check(pid, tier, seed):
 
     impl = run_impl_many(prop, cases)
     t_impl = time.time()
-    model_idx = [i for i, c in enumerate(cases) if prop.has_model(c)]
+    model_idx = [i for i, c in enumerate(cases) if prop.has_model(c) and not (impl[i]["obs"] or {}).get("_raised")]
     model = {}
     if b.driver_ok:
         outs = run_model_many(prop, [prop.model_input(cases[i], impl[i]["obs"]) for i in model_idx])
